@@ -6,6 +6,7 @@
 #include "../genlib/view.h"
 #include "../genlib/entries.h"
 #include "../genlib/parse_input.h"
+#include "../genlib/optconv.h"
 #include <tins/utils/radiotap_parser.h>
 #include <tins/pdu_iterator.h>
 #include <cstdlib>
@@ -69,6 +70,7 @@ void touch_extras(const PDU& top, Ctx& ctx, std::multiset<int>& codes) {
         if (const IPv6* v6 = dynamic_cast<const IPv6*>(p)) {
             for (const IPv6::ext_header& h : v6->headers()) {
                 codes.insert(1000 + h.option());
+                optconv::touch(h);
                 try { IPv6::hop_by_hop_header::from_extension_header(h); } catch (const exception_base&) {}
                 try { IPv6::destination_routing_header::from_extension_header(h); } catch (const exception_base&) {}
                 try { IPv6::routing_header::from_extension_header(h); } catch (const exception_base&) {}
@@ -76,25 +78,26 @@ void touch_extras(const PDU& top, Ctx& ctx, std::multiset<int>& codes) {
             }
             (void)v6->search_header(IPv6::ROUTING);
         } else if (const TCP* t = dynamic_cast<const TCP*>(p)) {
-            for (const TCP::option& o : t->options()) { codes.insert(2000 + o.option()); (void)t->search_option((TCP::OptionTypes)o.option()); }
+            for (const TCP::option& o : t->options()) { optconv::touch(o); codes.insert(2000 + o.option()); (void)t->search_option((TCP::OptionTypes)o.option()); }
             (void)t->get_flag(TCP::SYN);
             (void)t->has_flags(TCP::SYN | TCP::ACK);
         } else if (const IP* ip = dynamic_cast<const IP*>(p)) {
-            for (const IP::option& o : ip->options()) { codes.insert(3000 + o.option().number); (void)ip->search_option(o.option()); }
+            for (const IP::option& o : ip->options()) { optconv::touch(o); codes.insert(3000 + o.option().number); (void)ip->search_option(o.option()); }
         } else if (const DHCP* d = dynamic_cast<const DHCP*>(p)) {
-            for (const DHCP::option& o : d->options()) { codes.insert(4000 + o.option()); (void)d->search_option((DHCP::OptionTypes)o.option()); }
+            for (const DHCP::option& o : d->options()) { optconv::touch(o); codes.insert(4000 + o.option()); (void)d->search_option((DHCP::OptionTypes)o.option()); }
         } else if (const DHCPv6* d6 = dynamic_cast<const DHCPv6*>(p)) {
-            for (const DHCPv6::option& o : d6->options()) { codes.insert(5000 + o.option()); (void)d6->search_option((DHCPv6::OptionTypes)o.option()); }
+            for (const DHCPv6::option& o : d6->options()) { optconv::touch(o); codes.insert(5000 + o.option()); (void)d6->search_option((DHCPv6::OptionTypes)o.option()); }
         } else if (const ICMPv6* i6 = dynamic_cast<const ICMPv6*>(p)) {
-            for (const ICMPv6::option& o : i6->options()) { codes.insert(6000 + o.option()); (void)i6->search_option((ICMPv6::OptionTypes)o.option()); }
+            for (const ICMPv6::option& o : i6->options()) { optconv::touch(o); codes.insert(6000 + o.option()); (void)i6->search_option((ICMPv6::OptionTypes)o.option()); }
         } else if (const Dot11* d11 = dynamic_cast<const Dot11*>(p)) {
             for (const Dot11::option& o : d11->options()) {
                 codes.insert(7000 + o.option());
+                optconv::touch(o);
                 (void)d11->search_option((Dot11::OptionTypes)o.option());
                 if (o.option() == Dot11::RSN) { try { RSNInformation::from_option(o); } catch (const exception_base&) {} }
             }
         } else if (const PPPoE* pe = dynamic_cast<const PPPoE*>(p)) {
-            for (const PPPoE::tag& o : pe->tags()) { codes.insert(8000 + o.option()); (void)pe->search_tag(o.option()); }
+            for (const PPPoE::tag& o : pe->tags()) { optconv::touch(o); codes.insert(8000 + o.option()); (void)pe->search_tag(o.option()); }
         } else if (const DNS* dns = dynamic_cast<const DNS*>(p)) {
             DNS::resources_type all[3];
             try { all[0] = dns->answers(); all[1] = dns->authority(); all[2] = dns->additional(); } catch (const exception_base&) {}
